@@ -9,6 +9,7 @@ import Verif.Model.OpsDriver
 import Verif.Spec.Classify
 import Verif.Model.FlatDriver
 import Verif.Model.UnitsDriver
+import Verif.Model.PhasesDriver
 import Verif.Generated.Facts
 
 open Lean
@@ -56,6 +57,7 @@ def dispatch (op : String) (inp : J) (impl : Option J) : J :=
   | "sort" => UnitsDriver.sort inp
   | "replace" => UnitsDriver.replace inp
   | "flatten" => FlatDriver.run facts inp
+  | "phases" => PhasesDriver.run facts inp
   | "ops" => .obj [("answers", OpsDriver.run facts inp)]
   | "mixin" =>
     let primary := (inp.get? "primary").getD .null
